@@ -179,6 +179,12 @@ func Walk(v IVisitor, n INode) {
 		if n.Name != nil {
 			Walk(v, n.Name)
 		}
+	case *ClassElementName:
+		if n.Private != nil {
+			Walk(v, n.Private)
+		} else {
+			Walk(v, &n.PropertyName)
+		}
 	case *MethodDecl:
 		Walk(v, &n.Body)
 		Walk(v, &n.Params)
